@@ -211,6 +211,11 @@ where
             AtoPAPt,
         })
     }
+
+    #[cfg(feature = "verif-hooks")]
+    fn verif_view(&self) -> Option<verif_hooks_kkt::KktView<T>> {
+        Some(DirectLDLKKTSolver::verif_view(self))
+    }
 }
 
 impl<T> DirectLDLKKTSolver<T>
@@ -451,5 +456,151 @@ fn _fill_signs(signs: &mut [i8], m: usize, n: usize, map: &LDLDataMap) {
         let thisp = thismap.pdim();
         signs[p..(p + thisp)].copy_from_slice(thismap.Dsigns());
         p += thisp;
+    }
+}
+
+// Add-only read access for the external verification harness (/verif, property C11).
+// Exposes crate-private items of the KKT assembly (`assemble_kkt_matrix`, `LDLDataMap`,
+// `_fill_signs`) and private state of `DirectLDLKKTSolver`; adds no behaviour and nothing
+// depends on it.
+#[cfg(feature = "verif-hooks")]
+#[allow(missing_docs)]
+pub mod verif_hooks_kkt {
+    use super::*;
+
+    /// plain copy of one `SparseExpansionMap`
+    #[derive(Debug, Clone, PartialEq, Eq)]
+    pub enum PlainSparseMap {
+        SOC {
+            u: Vec<usize>,
+            v: Vec<usize>,
+            D: Vec<usize>,
+        },
+        GenPow {
+            p: Vec<usize>,
+            q: Vec<usize>,
+            r: Vec<usize>,
+            D: Vec<usize>,
+        },
+    }
+
+    /// plain copy of `LDLDataMap`
+    #[derive(Debug, Clone, PartialEq, Eq)]
+    pub struct PlainMap {
+        pub P: Vec<usize>,
+        pub A: Vec<usize>,
+        pub Hsblocks: Vec<usize>,
+        pub sparse_maps: Vec<PlainSparseMap>,
+        /// `pdim()`, `nnz_vec()`, `Dsigns()` of each sparse map, as the map reports them
+        pub sparse_pdim: Vec<usize>,
+        pub sparse_nnz_vec: Vec<usize>,
+        pub sparse_dsigns: Vec<Vec<i8>>,
+        pub diagP: Vec<usize>,
+        pub diag_full: Vec<usize>,
+    }
+
+    pub(crate) fn plain_map(map: &LDLDataMap) -> PlainMap {
+        let mut sparse_maps = vec![];
+        let mut sparse_pdim = vec![];
+        let mut sparse_nnz_vec = vec![];
+        let mut sparse_dsigns = vec![];
+        for sm in map.sparse_maps.iter() {
+            sparse_pdim.push(sm.pdim());
+            sparse_nnz_vec.push(sm.nnz_vec());
+            sparse_dsigns.push(sm.Dsigns().to_vec());
+            sparse_maps.push(match sm {
+                SparseExpansionMap::SOCExpansionMap(s) => PlainSparseMap::SOC {
+                    u: s.u.clone(),
+                    v: s.v.clone(),
+                    D: s.D.to_vec(),
+                },
+                SparseExpansionMap::GenPowExpansionMap(s) => PlainSparseMap::GenPow {
+                    p: s.p.clone(),
+                    q: s.q.clone(),
+                    r: s.r.clone(),
+                    D: s.D.to_vec(),
+                },
+            });
+        }
+        PlainMap {
+            P: map.P.clone(),
+            A: map.A.clone(),
+            Hsblocks: map.Hsblocks.clone(),
+            sparse_maps,
+            sparse_pdim,
+            sparse_nnz_vec,
+            sparse_dsigns,
+            diagP: map.diagP.clone(),
+            diag_full: map.diag_full.clone(),
+        }
+    }
+
+    /// `assemble_kkt_matrix`, followed by `_fill_signs` on `vec![1; n+m+p]` exactly as
+    /// `DirectLDLKKTSolver::new` does
+    pub fn assemble<T: FloatT>(
+        P: &CscMatrix<T>,
+        A: &CscMatrix<T>,
+        cones: &CompositeCone<T>,
+        shape: MatrixTriangle,
+    ) -> (CscMatrix<T>, PlainMap, Vec<i8>) {
+        let (K, map) = assemble_kkt_matrix(P, A, cones, shape);
+        let (m, n) = A.size();
+        let p = map.sparse_maps.pdim();
+        let mut dsigns = vec![1_i8; n + m + p];
+        _fill_signs(&mut dsigns, m, n, &map);
+        (K, plain_map(&map), dsigns)
+    }
+
+    /// `rng_cones` / `rng_blocks` of a composite cone as `(start, end)` pairs
+    pub fn cone_ranges<T: FloatT>(
+        cones: &CompositeCone<T>,
+    ) -> (Vec<(usize, usize)>, Vec<(usize, usize)>) {
+        (
+            cones.rng_cones.iter().map(|r| (r.start, r.end)).collect(),
+            cones.rng_blocks.iter().map(|r| (r.start, r.end)).collect(),
+        )
+    }
+
+    /// read-only copy of the private state of a `DirectLDLKKTSolver`
+    #[derive(Debug, Clone)]
+    pub struct KktView<T> {
+        pub m: usize,
+        pub n: usize,
+        pub p: usize,
+        pub KKT: CscMatrix<T>,
+        pub map: PlainMap,
+        pub dsigns: Vec<i8>,
+        pub Hsblocks: Vec<T>,
+        pub work1: Vec<T>,
+        pub work2: Vec<T>,
+        pub x: Vec<T>,
+        pub b: Vec<T>,
+        pub diagonal_regularizer: T,
+        /// the LDL engine's own (permuted) copy of the matrix values and the map from
+        /// KKT entry index to its position there (QDLDL only)
+        pub ldl_nzval: Option<Vec<T>>,
+        pub AtoPAPt: Option<Vec<usize>>,
+    }
+
+    impl<T: FloatT> DirectLDLKKTSolver<T> {
+        pub fn verif_view(&self) -> KktView<T> {
+            let ldl = self.ldlsolver.verif_c08_permuted_copy();
+            KktView {
+                m: self.m,
+                n: self.n,
+                p: self.p,
+                KKT: self.KKT.clone(),
+                map: plain_map(&self.map),
+                dsigns: self.dsigns.clone(),
+                Hsblocks: self.Hsblocks.clone(),
+                work1: self.work1.clone(),
+                work2: self.work2.clone(),
+                x: self.x.clone(),
+                b: self.b.clone(),
+                diagonal_regularizer: self.diagonal_regularizer,
+                ldl_nzval: ldl.as_ref().map(|c| c.0.clone()),
+                AtoPAPt: ldl.as_ref().map(|c| c.1.clone()),
+            }
+        }
     }
 }
